@@ -645,6 +645,7 @@ type ReplayFile struct {
 	Plan      *core.Plan      `json:"plan"`
 	Log       []string        `json:"log,omitempty"`
 	Violation *core.Violation `json:"violation"`
+	Unstable  string          `json:"unstable,omitempty"` // set when the code under test did not behave the same in every fresh process
 }
 
 func minimiseAndWrite(bin string, p *Prop, vr *violRec, tmp string) (string, error) {
@@ -688,6 +689,7 @@ func minimiseAndWrite(bin string, p *Prop, vr *violRec, tmp string) (string, err
 	if p.Race {
 		attempts = 12
 	}
+	unstable, misses := false, 0
 	for i := 0; i < attempts && len(hashes) < 2; i++ {
 		r := runWorker(bin, &core.Request{Mode: "exec", Plan: small, KeepLog: true}, tmp, fmt.Sprintf("rp%d", i), 10*time.Minute, 1)
 		if r.err != nil || len(r.recs) != 1 {
@@ -697,7 +699,17 @@ func minimiseAndWrite(bin string, p *Prop, vr *violRec, tmp string) (string, err
 			if p.Race {
 				continue
 			}
-			return "", fmt.Errorf("replay diverged: violation %s did not reproduce in a fresh process (plan seed %d)", vr.v.Signature, small.Seed)
+			// The harness is deterministic (selftest), the code under test need
+			// not be once it is broken: an outcome that depends on Go's map
+			// iteration order shows in some processes only. Such a violation is
+			// still a violation: re-run until it has shown twice, and say so in
+			// the replay file.
+			if !unstable {
+				unstable = true
+				attempts = 10
+			}
+			misses++
+			continue
 		}
 		hashes = append(hashes, r.recs[0].Outcome.LogHash)
 		out = r.recs[0].Outcome
@@ -705,7 +717,7 @@ func minimiseAndWrite(bin string, p *Prop, vr *violRec, tmp string) (string, err
 	if len(hashes) < 2 {
 		return "", fmt.Errorf("replay diverged: violation %s showed up in %d of %d fresh processes (plan seed %d)", vr.v.Signature, len(hashes), attempts, small.Seed)
 	}
-	if hashes[0] != hashes[1] {
+	if hashes[0] != hashes[1] && !unstable {
 		return "", fmt.Errorf("replay diverged: log hash %s vs %s for the same plan", hashes[0], hashes[1])
 	}
 	var viol *core.Violation
@@ -720,6 +732,9 @@ func minimiseAndWrite(bin string, p *Prop, vr *violRec, tmp string) (string, err
 	}
 	rf := &ReplayFile{Property: p.ID, Engine: engine, Race: p.Race, Signature: vr.v.Signature, Oracle: vr.v.Oracle, Message: viol.Message, LogHash: hashes[0],
 		Original: len(vr.plan.Steps), Minimised: len(small.Steps), Execs: execs, Plan: small, Violation: viol, Log: out.Log}
+	if unstable {
+		rf.Unstable = fmt.Sprintf("the violation showed in %d of %d fresh processes running this plan: the harness is deterministic, the code under test is not under this plan (e.g. an outcome depending on map iteration order); `check replay` re-runs the plan up to 12 times", len(hashes), len(hashes)+misses)
+	}
 	if len(rf.Log) > 400 {
 		rf.Log = rf.Log[len(rf.Log)-400:]
 	}
@@ -771,7 +786,7 @@ func replay(path string) int {
 	}
 	// race replays: the execution is the same every time; the detector's
 	// report of it is not (see minimiseAndWrite) - re-run until it shows
-	for i := 0; rf.Race && i < 11 && !hasSig(r.recs[0].Outcome, rf.Property, rf.Signature); i++ {
+	for i := 0; (rf.Race || rf.Unstable != "") && i < 11 && !hasSig(r.recs[0].Outcome, rf.Property, rf.Signature); i++ {
 		r2 := runWorker(bin, &core.Request{Mode: "exec", Plan: rf.Plan, KeepLog: true}, tmp, fmt.Sprintf("replay%d", i), 10*time.Minute, 1)
 		if r2.err == nil && len(r2.recs) == 1 {
 			r = r2
